@@ -21,6 +21,7 @@ def run(ctx):
         _ir.check_programs(ctx, meta, IMPORTS, 'c02_check', None,
                            'the best agent may miss an evaluated minimum', 'C02_best_is_min')
         _ir.trace_inclusion(ctx, meta)
+        _ir.state_replay(ctx, meta)
     ctx.cov['rule'] = ('theorem for all boxes/objectives/oracles/iteration counts per regenerated program; run monitor: best fitness versus the minimum of the '
                        'logged objective values at every record and at return, objectives with ties/plateaus/boundary optima')
     _ir.monitor(ctx)
